@@ -6,17 +6,20 @@ open PikaVerif
 /-- Program counters at which the thread holds the internal spinlock. -/
 def holds : Pc → Bool
   | .locked | .released | .enq _ | .relk _ _ | .post _ | .nLocked | .nAll | .nDone => true
+  | .sChk1 | .sStopped | .cLocked _ | .cAll _ | .postS _ => true
   | _ => false
 
 /-- Program counters at which the thread holds the user lock. -/
 def holdsU : Pc → Bool
   | .unlocking | .setting _ | .predChk _ | .want | .locked | .retn _ => true
+  | .sChk0 | .sReg | .sRegLk | .sChk1 | .sStopped | .sDtor _ | .sRm _ | .sRmChk _ | .sRmWait _ => true
+  | .cWant k | .cLocked k | .cAll k | .cRet k => k
   | _ => false
 
 /-- Program counters at which the thread does not hold the user lock. -/
 def noU : Pc → Bool
   | .wantU | .released | .enq _ | .unl _ _ | .susp _ | .slp _ | .wokeNL _ _ | .relk _ _
-  | .post _ | .relockU _ => true
+  | .post _ | .relockU _ | .postS _ => true
   | _ => false
 
 /-- Program counters at which the thread's entry is linked in the cv queue. -/
@@ -53,7 +56,9 @@ structure Inv (s : St) : Prop where
 theorem inv_init (n : Nat) (f : Bool) : Inv (init n f) := by
   refine ⟨?_, ?_, ?_, ?_, ?_, ?_, ?_, ?_, ?_, ?_⟩ <;> simp [init, holds, holdsU, noU, inQ, needTok, waitExp]
 
-attribute [local grind] holds holdsU noU inQ waitExp needTok setPopped b2n isTimed isPred
+attribute [local grind] holds holdsU noU inQ waitExp needTok setPopped b2n isTimed isPred exitPc
+
+set_option maxHeartbeats 1600000
 
 set_option hygiene false in
 macro "cv_step" : tactic => `(tactic| (
@@ -91,6 +96,19 @@ theorem step_inv_woke (s s' : St) (t : Nat) (hi : Inv s) (h : step s (.woke t) =
 theorem step_inv_sleep (s s' : St) (t : Nat) (hi : Inv s) (h : step s (.sleep t) = some s') : Inv s' := by cv_step
 theorem step_inv_timeout (s s' : St) (t : Nat) (hi : Inv s) (h : step s (.timeout t) = some s') : Inv s' := by cv_step
 theorem step_inv_done (s s' : St) (t : Nat) (hi : Inv s) (h : step s (.done t) = some s') : Inv s' := by cv_step
+theorem step_inv_stop0 (s s' : St) (t : Nat) (v : Bool) (hi : Inv s) (h : step s (.stop0 t v) = some s') : Inv s' := by cv_step
+theorem step_inv_stop1 (s s' : St) (t : Nat) (v : Bool) (hi : Inv s) (h : step s (.stop1 t v) = some s') : Inv s' := by cv_step
+theorem step_inv_stop2 (s s' : St) (t : Nat) (v : Bool) (hi : Inv s) (h : step s (.stop2 t v) = some s') : Inv s' := by cv_step
+theorem step_inv_stSeen (s s' : St) (t : Nat) (hi : Inv s) (h : step s (.stSeen t) = some s') : Inv s' := by cv_step
+theorem step_inv_stAcq (s s' : St) (t m : Nat) (hi : Inv s) (h : step s (.stAcq t m) = some s') : Inv s' := by cv_step
+theorem step_inv_stPush (s s' : St) (t : Nat) (b : Bool) (hi : Inv s) (h : step s (.stPush t b) = some s') : Inv s' := by cv_step
+theorem step_inv_stDeq (s s' : St) (t c : Nat) (b : Bool) (hi : Inv s) (h : step s (.stDeq t c b) = some s') : Inv s' := by cv_step
+theorem step_inv_stFin (s s' : St) (t c : Nat) (b : Bool) (hi : Inv s) (h : step s (.stFin t c b) = some s') : Inv s' := by cv_step
+theorem step_inv_stInFin (s s' : St) (t : Nat) (hi : Inv s) (h : step s (.stInFin t) = some s') : Inv s' := by cv_step
+theorem step_inv_stUnlink (s s' : St) (t : Nat) (b : Bool) (hi : Inv s) (h : step s (.stUnlink t b) = some s') : Inv s' := by cv_step
+theorem step_inv_stSelf (s s' : St) (t : Nat) (b : Bool) (hi : Inv s) (h : step s (.stSelf t b) = some s') : Inv s' := by cv_step
+theorem step_inv_stWaited (s s' : St) (t : Nat) (hi : Inv s) (h : step s (.stWaited t) = some s') : Inv s' := by cv_step
+theorem step_inv_stRsDone (s s' : St) (t : Nat) (hi : Inv s) (h : step s (.stRsDone t) = some s') : Inv s' := by cv_step
 
 theorem setPopped_facts {p p' : Pc} (h : setPopped p = some p') :
     holds p' = false ∧ holds p = false ∧ holdsU p' = false ∧ noU p' = true ∧ inQ p = true ∧ inQ p' = false ∧
@@ -100,9 +118,9 @@ theorem setPopped_facts {p p' : Pc} (h : setPopped p = some p') :
   split at h <;> simp at h <;> subst h <;> simp [holds, holdsU, noU, inQ, waitExp, needTok]
 
 theorem popCore_inv (s s' : St) (t z g : Nat) (d : Bool) (pcT : Pc) (hi : Inv s)
-    (hl : s.lock = some t) (hT : holds pcT = true ∧ holdsU pcT = false ∧ noU pcT = false ∧ inQ pcT = false ∧
+    (hl : s.lock = some t) (hT : holds pcT = true ∧ holdsU pcT = holdsU (s.pc t) ∧ noU pcT = noU (s.pc t) ∧ inQ pcT = false ∧
       waitExp pcT = false ∧ needTok pcT = false)
-    (hpt : holdsU (s.pc t) = false ∧ noU (s.pc t) = false ∧ inQ (s.pc t) = false ∧ waitExp (s.pc t) = false)
+    (hpt : inQ (s.pc t) = false ∧ waitExp (s.pc t) = false)
     (h : popCore s t z g d pcT = some s') : Inv s' := by
   obtain ⟨h1,h2,h3,h4,h5,h6,h7,h8,h9,h10⟩ := hi
   unfold popCore at h
@@ -120,7 +138,7 @@ theorem popCore_inv (s s' : St) (t z g : Nat) (d : Bool) (pcT : Pc) (hi : Inv s)
   obtain ⟨f1, f2, f3, f4, f5, f6, f7, f8, f9, f10, f11⟩ := setPopped_facts hp'
   have htn : t < s.n := (h2 t hl).2
   have hgt : g' ≠ t := by
-    intro he; rw [he] at f5; rw [hpt.2.2.1] at f5; simp at f5
+    intro he; rw [he] at f5; rw [hpt.1] at f5; simp at f5
   have hnd : g' ∉ rest ∧ rest.Nodup := by rw [hq] at h8; simpa using h8
   split at h
   case isFalse => simp at h
@@ -144,7 +162,7 @@ theorem popCore_inv (s s' : St) (t z g : Nat) (d : Bool) (pcT : Pc) (hi : Inv s)
     have := h7 u
     rw [hq] at this
     by_cases hut : u = t
-    · subst hut; simp [upd, hT.2.2.2.1]; rw [hpt.2.2.1] at this; simp at this; exact this.2
+    · subst hut; simp [upd, hT.2.2.2.1]; rw [hpt.1] at this; simp at this; exact this.2
     · by_cases hug : u = g'
       · subst hug; simp [upd, hut, f6, hnd.1]
       · simp [upd, hut, hug] at this ⊢; simpa [hug] using this
@@ -164,7 +182,7 @@ theorem popCore_inv (s s' : St) (t z g : Nat) (d : Bool) (pcT : Pc) (hi : Inv s)
         split <;> simp [upd, hug, this]
   · intro u
     by_cases hut : u = t
-    · subst hut; simp [upd, hgt.symm, hT.2.2.2.2.1]; rw [h10 u]; exact hpt.2.2.2
+    · subst hut; simp [upd, hgt.symm, hT.2.2.2.2.1]; rw [h10 u]; exact hpt.2
     · by_cases hug : u = g'
       · subst hug; simp [upd, hut, f7]
       · simp [upd, hut, hug]; exact h10 u
@@ -178,8 +196,8 @@ theorem step_inv_popResume (s s' : St) (t z g : Nat) (d : Bool) (hi : Inv s)
   split at h
   case h_2 => simp at h
   rename_i hpc
-  exact popCore_inv s s' t z g d .nDone hi hg.2.1 (by simp [holds, holdsU, noU, inQ, waitExp, needTok])
-    (by rw [hpc]; simp [holdsU, noU, inQ, waitExp]) h
+  exact popCore_inv s s' t z g d .nDone hi hg.2.1 (by rw [hpc]; simp [holds, holdsU, noU, inQ, waitExp, needTok])
+    (by rw [hpc]; simp [inQ, waitExp]) h
 
 theorem step_inv_popAll (s s' : St) (t z g : Nat) (d : Bool) (hi : Inv s)
     (h : step s (.popAll t z g d) = some s') : Inv s' := by
@@ -188,10 +206,13 @@ theorem step_inv_popAll (s s' : St) (t z g : Nat) (d : Bool) (hi : Inv s)
   case isFalse => simp at h
   rename_i hg
   split at h
-  case h_2 => simp at h
-  rename_i hpc
-  exact popCore_inv s s' t z g d .nAll hi hg.2 (by simp [holds, holdsU, noU, inQ, waitExp, needTok])
-    (by rw [hpc]; simp [holdsU, noU, inQ, waitExp]) h
+  case h_3 => simp at h
+  · rename_i hpc
+    exact popCore_inv s s' t z g d .nAll hi hg.2 (by rw [hpc]; simp [holds, holdsU, noU, inQ, waitExp, needTok])
+      (by rw [hpc]; simp [inQ, waitExp]) h
+  · rename_i k hpc
+    exact popCore_inv s s' t z g d (.cAll k) hi hg.2 (by rw [hpc]; simp [holds, holdsU, noU, inQ, waitExp, needTok])
+      (by rw [hpc]; simp [inQ, waitExp]) h
 
 theorem step_inv (s s' : St) (e : Ev) (hi : Inv s) (h : step s e = some s') : Inv s' := by
   cases e with
@@ -214,6 +235,19 @@ theorem step_inv (s s' : St) (e : Ev) (hi : Inv s) (h : step s e = some s') : In
   | sleep t => exact step_inv_sleep s s' t hi h
   | timeout t => exact step_inv_timeout s s' t hi h
   | done t => exact step_inv_done s s' t hi h
+  | stop0 t v => exact step_inv_stop0 s s' t v hi h
+  | stop1 t v => exact step_inv_stop1 s s' t v hi h
+  | stop2 t v => exact step_inv_stop2 s s' t v hi h
+  | stSeen t => exact step_inv_stSeen s s' t hi h
+  | stAcq t m => exact step_inv_stAcq s s' t m hi h
+  | stPush t b => exact step_inv_stPush s s' t b hi h
+  | stDeq t c b => exact step_inv_stDeq s s' t c b hi h
+  | stFin t c b => exact step_inv_stFin s s' t c b hi h
+  | stInFin t => exact step_inv_stInFin s s' t hi h
+  | stUnlink t b => exact step_inv_stUnlink s s' t b hi h
+  | stSelf t b => exact step_inv_stSelf s s' t b hi h
+  | stWaited t => exact step_inv_stWaited s s' t hi h
+  | stRsDone t => exact step_inv_stRsDone s s' t hi h
 
 theorem inv_of_accepted {n : Nat} {f : Bool} {log : List Ev} {s : St}
     (h : runLog step (init n f) log = some s) : Inv s :=
